@@ -22,7 +22,7 @@ CHECKS = {
          'Positions and literal kinds of mc/gen/hoist.py.'),
  'C09': ('exploration', 'Trigger name {exec, eval, locals, globals, vars} x form {call, bare, attribute base} x 25 positions, star imports in 5 positions, and scope-tree programs with a module-level trigger, x 60+ option sets (+ preserve lists): the output must be textually identical to the output without the three name-changing switches, and the program (whose trigger really reads the namespaces) behaves the same.',
          'bounded exhaustive enumeration of trigger placements x option sets; differential text + execution oracle',
-         'Premise evaluated with the independent resolver on what the structural transforms leave; Python-2 exec statement not covered.'),
+         'Premise evaluated with the independent resolver on what the structural transforms leave; the Python 2 exec statement and the name triggers under the other installed interpreters go through the portable worker (textual freeze + stdout / exception comparison).'),
  'C10': ('exploration', 'Scope-tree and fragment programs x 4 option sets x every preserve specification drawn from the names the renamer would otherwise respell (subsets <=2 + full, list / single string / locals / globals / both), four literal __all__ spellings and awslambda entry points: preserved bindings keep their spelling at every site, the binding bijection still holds, and nothing but spellings changes.',
          'bounded exhaustive enumeration of programs x preserve specifications; alignment + independent resolution',
          'Lists of <=3 names taken from the program itself.'),
@@ -46,16 +46,34 @@ CHECKS = {
          'In-process main() validated against the executable on a subset.'),
  'C15': ('model_checking', 'Explicit tree/fault state machine: all trees of <=3/4 entries from 20 file kinds (shrinking/growing/empty .py, .pyw, syntax error, undecodable, injected unreadable / read-only, non-Python names incl. .pyi/.pyx/.PY, sub-directory, file/directory/dangling symlinks, symlink loop) x 7 argument forms (incl. a missing path) x 2 flag sets x both directory listing orders, against a reference model of visit order and per-file outcome; every file\'s post-state, the listing, the exit status and the set of files must match the model (post-state always in {pre, api(pre)[, api(api(pre)) for aliased paths]}); single-file stdout/--output modes never touch the source; a subset is repeated through the real executable.',
          'explicit-state enumeration of directory trees x fault positions x listing orders against a reference model; model traces validated against the implementation on every case',
-         'Faults injected by shadowing open()/os.walk in python_minifier.__main__; torn writes are outside the property.'),
+         'Faults injected by shadowing open()/os.walk in python_minifier.__main__; a write() that fails after the open is part of the alphabet (recorded finding: truncate-then-write); crashes between truncation and write are not enumerated.'),
  'C16': ('exploration', '32 constant-carrying programs x 8 encodings (UTF-8, BOM, cookies latin-1/cp1252/shift_jis/utf-8, cookie contradicting a BOM) x 5 newline conventions x 11 shebang forms (incl. characters str.splitlines() treats as line ends) x {bytes, str} x preserve_shebang on/off x {all transforms off, default}, and through the CLI: strict tree equality with the interpreter\'s own parse of the bytes (or same behaviour), first-line rule, api(bytes) == api(text), CLI output decodes as UTF-8; sources the interpreter rejects must raise the same exception class.',
          'bounded exhaustive enumeration of encodings x newlines x shebangs x input types',
          'The interpreter\'s own reading of the bytes is the reference.'),
  'C11': ('model_checking', 'Four owned sources of nondeterminism. (1) explicit-state BFS over call histories (14-call alphabet sharing preserve lists, option objects, type parameters, __all__, raising calls; depth 3 / 4), every history in its own fresh process, state = digest of all mutable module-level/class/default-argument state of python_minifier + caller-owned arguments; invariants per transition: result == fresh-process result, arguments == pre-call copies, module state unchanged. (2) stateless preemption-bounded exploration of 2-3 threads calling minify() under a cooperative scheduler (trace events inside python_minifier are the scheduling points): bound 0, every single preemption at line granularity, pairs at call granularity and 3 threads (thorough). (3) every permutation (<=3 elements; reverse/rotations above) of the iteration order of the string sets the renamer builds. (4) PYTHONHASHSEED 0..15 / 0..63+random in fresh processes.',
          'explicit-state BFS over call histories + preemption-bounded schedule enumeration + exhaustive set-order permutations on the real implementation',
-         'GIL-level interleavings (line/call events), not bytecode-level; seeds are a bounded enumeration backed by explicit set-order control.'),
+         'GIL-level interleavings: line / call events everywhere, every bytecode instruction of the smallest program in the thorough tier; seeds are a bounded enumeration backed by explicit set-order control.'),
  'C17': ('exploration', 'Pinned corpus (329 modules: python_minifier itself at the pinned commit, 149 CPython 3.12.1 stdlib modules of 2-120 KiB and 146 small real modules of 40 B - 2 KiB, checksummed) x 11 size options x 2 bases {all off, default minus the option}: the minified text with the option on is never longer (characters and UTF-8 bytes) than with it off. The finite space is enumerated completely; there is no state machine here.',
          'complete enumeration of a finite configuration space (corpus x option x base)',
          'The corpus is fixed bytes; both tiers enumerate all of it (about half a minute). Two recorded findings (hoisting cost model ignores indentation).'),
+}
+
+
+# what later sessions added to the explored space of a check (appended to the level text)
+ADDED = {
+ 'C01': 'The scope-tree part is repeated under the other installed interpreters (3.7 and 3.13 over the one- and two-scope core space in the quick tier; 3.7-3.11 and 3.13 over the whole quick-tier space in the thorough tier): minified, compiled and executed by that interpreter.',
+ 'C03': 'The scope-tree part is repeated under the other installed interpreters (3.7 and 3.13 in the quick tier, 3.7-3.11 and 3.13 in the thorough tier) including the symtable cross-check of that version; decoy programs also delete (never assign) the injected global.',
+ 'C05': 'Field classes also carry their fields inside if / try / with / for blocks of the class body and after a nested class; the reference canonicaliser decides class attribute vs variable by the enclosing scope; exception names rebound through globals().',
+ 'C06': 'Placements include annotated and nested __slots__ assignments and the values of annotated assignments (crossed with annotation removal).',
+ 'C08': 'Depth ladders: 36 chained / nested shapes x rungs 10..3000 x 3 option sets, each on a fresh thread; the first failing rung of a ladder is part of the signature (14 shapes reach the recursive visitors\' limit before the interpreter\'s: recorded findings).',
+ 'C09': 'The Python 2 exec statement (5 forms) and the name triggers in 19 statement positions are run by the portable worker under every installed interpreter (2.7, 3.6-3.13); trigger names declared global, used as same-named parameter defaults or as method / class-attribute names are in the position alphabet.',
+ 'C10': 'Seven literal __all__ spellings (incl. chained assignments and a rebound list).',
+ 'C11': 'Set-order permutations and hash seeds also cover 1 728 f-string programs whose printed form has tied candidates, the f-string members of the expression table and the pattern table; call histories include the exit paths of minify() (shebang early return, literals at the interpreter-wide digit limit, bytes sources); thorough: every single preemption at bytecode granularity on the smallest program.',
+ 'C13': 'End-to-end sources sit on both sides of the byte-size rule (latin-1 module, hair\'s-breadth UTF-8 module); stdin mixed with several paths in every position is in the invalid-invocation list.',
+ 'C14': 'The size rule is also enforced when the API raises for a parseable (very deep) module, and for several modules - some byte-identical - in one --in-place run.',
+ 'C15': 'File kinds also include a module in a declared non-UTF-8 encoding and a module whose write() fails after the open (ENOSPC); argument forms include <symlinked directory>/../target.py.',
+ 'C16': 'Also: a shebang line that is itself the coding line, cookies that come too late (line 3), bytes that are not valid in the declared encoding inside comments; the result is parsed / run from its UTF-8 bytes.',
+ 'C17': 'Plus 14 typed real modules (annotated assignments with repeated literals) from installed packages: 343 modules.',
 }
 
 
@@ -63,6 +81,8 @@ def main():
     checks = []
     for pid in sorted(CHECKS):
         level, text, technique, note = CHECKS[pid]
+        if pid in ADDED:
+            text = text + ' ' + ADDED[pid]
         checks.append({
             'property_id': pid, 'quick_cmd': './run %s --tier quick' % pid, 'thorough_cmd': './run %s --tier thorough' % pid,
             'evidence_file': '/verif/evidence/%s.json' % pid, 'replay_cmd_template': './run replay {path}', 'engine': 'mc',
